@@ -33,6 +33,7 @@ type Engine struct {
 	verbose   bool
 	assumptions map[string]bool
 	tagSuffix   string
+	errGlobalTag map[string]string // dynamic type tag of such a global when init shows it
 	errGlobals  map[string]bool // G$pkg.Name of interface-typed globals initialised once to a fresh non-nil value
 }
 
@@ -392,6 +393,9 @@ func (e *Engine) resolveType(pkg *types.Package, s string) types.Type {
 			return tn.Type()
 		}
 	}
+	if tn, ok := types.Universe.Lookup(s).(*types.TypeName); ok {
+		return tn.Type()
+	}
 	panic(specErr{fmt.Sprintf("cannot resolve type %q", s)})
 }
 
@@ -431,7 +435,9 @@ func (e *Engine) allProperties() []string {
 // (errors.New, fmt.Errorf, &T{...}) and that no other function of the module assigns.
 func (e *Engine) scanErrGlobals() {
 	e.errGlobals = map[string]bool{}
+	e.errGlobalTag = map[string]string{}
 	cand := map[*ssa.Global]bool{}
+	candType := map[*ssa.Global]types.Type{}
 	for _, sp := range e.spkgs {
 		init := sp.Func("init")
 		if init == nil {
@@ -454,9 +460,17 @@ func (e *Engine) scanErrGlobals() {
 				case *ssa.Call:
 					if f := v.Common().StaticCallee(); f != nil && (f.String() == "errors.New" || f.String() == "fmt.Errorf") {
 						cand[g] = true
+						if f.String() == "errors.New" {
+							if ep := e.typesPkg("errors"); ep != nil {
+								if tn, ok := ep.Scope().Lookup("errorString").(*types.TypeName); ok {
+									candType[g] = types.NewPointer(tn.Type())
+								}
+							}
+						}
 					}
 				case *ssa.MakeInterface:
 					cand[g] = true
+					candType[g] = v.X.Type()
 				}
 			}
 		}
@@ -477,6 +491,45 @@ func (e *Engine) scanErrGlobals() {
 		}
 	}
 	for g := range cand {
-		e.errGlobals["G$"+sanitize(g.Pkg.Pkg.Name()+"."+g.Name())] = true
+		k := "G$" + sanitize(g.Pkg.Pkg.Name()+"."+g.Name())
+		e.errGlobals[k] = true
+		if t := candType[g]; t != nil {
+			e.errGlobalTag[k] = e.typeTag(t)
+		}
 	}
+}
+
+// isMonitorGuardedKey: heap key of a guarded (or ghost) field of some monitor type
+func (e *Engine) isMonitorGuardedKey(key string) bool {
+	if !strings.HasPrefix(key, "H$") {
+		return false
+	}
+	rest := key[2:]
+	parts := strings.SplitN(rest, ".", 3)
+	if len(parts) < 3 {
+		return false
+	}
+	pkgName, typ, field := parts[0], parts[1], parts[2]
+	if i := strings.IndexAny(field, ".!"); i >= 0 {
+		field = field[:i]
+	}
+	for _, pc := range e.contracts {
+		tp := e.typesPkg(pc.Path)
+		if tp == nil || tp.Name() != pkgName {
+			continue
+		}
+		md := pc.Monitors[typ]
+		if md == nil {
+			continue
+		}
+		if strings.HasPrefix(field, "ghost$") {
+			return true
+		}
+		for _, g := range md.Guarded {
+			if g == field {
+				return true
+			}
+		}
+	}
+	return false
 }
